@@ -104,7 +104,31 @@ theorem C06_released_on_raise (c : Cfg) (L : Nat) (hwf : WF c L) (eng : Nat → 
       ∃ f, ctxMonRun c s.trace = some f ∧ f.th t = {} :=
   C06P.released c L hwf eng progs hp ms σ t
 
+/-- frame lemma for snapshots: pickling / deep-copying the machine from a callback changes nothing but
+the thread's program counter — in particular `IdentManager.current`, the lock owners and the context
+map are untouched, so (by `C06_reentrant_no_deadlock`, which holds for runs containing snapshots) the
+calls that follow on the processing thread still acquire nothing -/
+theorem C06_snapshot_frame (c : Cfg) (eng : Nat → Nat → Nat) (s : LState) (t : Nat) (p : List Op)
+    (hp : (s.th t).prog = .snap :: p) (hpend : (s.th t).pend = []) (hf : (s.th t).frames ≠ []) :
+    let s' := step c eng s t
+    s'.current = s.current ∧ s'.owner = s.owner ∧ s'.cmap = s.cmap ∧ s'.mstate = s.mstate ∧
+    s'.ung = s.ung ∧ s'.trace = s.trace ++ [.snap t] ∧
+    (∀ i, held (s'.th i) = held (s.th i)) ∧ (∀ i, (s'.th i).pend = (s.th i).pend) ∧
+    (s'.th t).prog = p :=
+  C06P.snapshot_frame c eng s t p hp hpend hf
+
 /-! non-vacuity -/
+
+/-- a snapshot in the middle of an event, followed by a re-entrant call: nothing is entered again -/
+example :
+    let c : Cfg := { hsm := false, base := [], extra := [] }
+    let progs : Nat → List Op := fun t =>
+      if t = 0 then [.call 1 0, .cb 1, .snap, .call 1 1, .cb 2, .ret false, .cb 3, .ret false] else []
+    let s := runSched c (fun a m => 2 * m + a) (init c progs 0) (List.replicate 12 0)
+    s.trace = [.callBegin 0 1 0, .enter 0 (.lock 0), .enter 0 .ident, .cb 0 1, .snap 0, .callBegin 0 1 1,
+               .cb 0 2, .callEnd 0 false, .cb 0 3, .exit 0 .ident, .exit 0 (.lock 0), .callEnd 0 false] ∧
+    noOverlap 0 s.trace = true ∧ contextsOrderDone c 1 s.trace = true := by decide
+
 
 /-- regression (former finding F-C06-hsm-model-context-ignored, fixed in /repo 2c648fd): a
 LockedHierarchicalMachine, model 0 with one context of its own, one thread, one event — the model
